@@ -367,4 +367,4 @@ PLANS["C11"]["stages"].append(dict({"custom": "declbatch"}, **_BATCHES))
 PLANS["C11"]["rule"] += (" stage 2: generated name sets (unit variants with explicit multi-byte names sharing prefixes, adjacent and not, split across 1-3 groups, hidden groups, catch-all) compiled with the repository's macros: every prefix of every name (visible and hidden) x {plain, leading blanks, trailing blank(s), argument started} "
                           "x every cursor position x capacities {len, len+|cont|-1, len+|cont|, +1, 64, ...}; the terminal row/column after Tab must agree with the line")
 PLANS["C11"]["min_counts"]["quick"].update({"c11.gen.completed": 100000, "c11.gen.fit.ContDoesNotFit": 20000})
-PLANS["C11"]["min_counts"]["thorough"].update({"c11.gen.completed": 1500000, "c11.gen.fit.ContDoesNotFit": 300000})
+PLANS["C11"]["min_counts"]["thorough"].update({"c11.gen.completed": 800000, "c11.gen.fit.ContDoesNotFit": 150000})
